@@ -17,9 +17,15 @@ type Cache struct {
 
 // clientEntries holds entries of client details sent to the service.
 type clientEntries struct {
-	replayMap map[time.Time]replayCacheEntry
+	replayMap map[replayKey]replayCacheEntry
 	seqNumber int64
 	subKey    types.EncryptionKey
+}
+
+// replayKey identifies an authenticator of one client: its time (CTime and Cusec combined) and the service it was presented to.
+type replayKey struct {
+	cTime time.Time
+	sName string
 }
 
 // Cache entry tracking client time values of tickets sent to the service.
@@ -36,11 +42,11 @@ func (c *Cache) getClientEntries(cname types.PrincipalName) (clientEntries, bool
 	return ce, ok
 }
 
-func (c *Cache) getClientEntry(cname types.PrincipalName, t time.Time) (replayCacheEntry, bool) {
+func (c *Cache) getClientEntry(cname types.PrincipalName, sname types.PrincipalName, t time.Time) (replayCacheEntry, bool) {
 	if ce, ok := c.getClientEntries(cname); ok {
 		c.mux.RLock()
 		defer c.mux.RUnlock()
-		if e, ok := ce.replayMap[t]; ok {
+		if e, ok := ce.replayMap[replayKey{cTime: t, sName: sname.PrincipalNameString()}]; ok {
 			return e, true
 		}
 	}
@@ -79,8 +85,9 @@ func (c *Cache) AddEntry(sname types.PrincipalName, a types.Authenticator) {
 // addEntry adds an entry to the Cache. The caller must hold the write lock.
 func (c *Cache) addEntry(sname types.PrincipalName, a types.Authenticator) {
 	ct := a.CTime.Add(time.Duration(a.Cusec) * time.Microsecond)
+	k := replayKey{cTime: ct, sName: sname.PrincipalNameString()}
 	if ce, ok := c.entries[a.CName.PrincipalNameString()]; ok {
-		ce.replayMap[ct] = replayCacheEntry{
+		ce.replayMap[k] = replayCacheEntry{
 			presentedTime: time.Now().UTC(),
 			sName:         sname,
 			cTime:         ct,
@@ -89,8 +96,8 @@ func (c *Cache) addEntry(sname types.PrincipalName, a types.Authenticator) {
 		ce.subKey = a.SubKey
 	} else {
 		c.entries[a.CName.PrincipalNameString()] = clientEntries{
-			replayMap: map[time.Time]replayCacheEntry{
-				ct: {
+			replayMap: map[replayKey]replayCacheEntry{
+				k: {
 					presentedTime: time.Now().UTC(),
 					sName:         sname,
 					cTime:         ct,
@@ -125,10 +132,8 @@ func (c *Cache) IsReplay(sname types.PrincipalName, a types.Authenticator) bool 
 	c.mux.Lock()
 	defer c.mux.Unlock()
 	if ce, ok := c.entries[a.CName.PrincipalNameString()]; ok {
-		if e, ok := ce.replayMap[ct]; ok {
-			if e.sName.Equal(sname) {
-				return true
-			}
+		if _, ok := ce.replayMap[replayKey{cTime: ct, sName: sname.PrincipalNameString()}]; ok {
+			return true
 		}
 	}
 	c.addEntry(sname, a)
